@@ -599,3 +599,65 @@ def void_call_inputs():
             out.append((hdr + "@compute @workgroup_size(1) fn main() { " + body + " }").encode("utf-8"))
             out.append((hdr + "fn r() -> f32 { return %s; }\n@compute @workgroup_size(1) fn main() { }" % v).encode("utf-8"))
     return sorted(set(out))
+
+
+def big_valid_inputs():
+    """Valid (or plausibly valid) programs that are large in ONE dimension and reach every back end through an entry point:
+    very long names, wide structs / constructors / parameter lists, many declarations.  Each <= 64 KiB."""
+    out = []
+    ep = "@compute @workgroup_size(1) fn main() { %s }"
+    buf = "@group(0) @binding(0) var<storage, read_write> o: array<u32, 16>;\n"
+    for n in (300, 5000, 17001, 60000):
+        name = "a" * n
+        out.append(("longname_ep%d" % n, "@compute @workgroup_size(1) fn %s() { }" % name))
+        out.append(("longname_local%d" % n, buf + ep % ("var %s = 1u; o[0] = %s;" % (name, name))))
+        out.append(("longname_member%d" % n, "struct S { %s: u32 }\n@group(0) @binding(0) var<storage, read_write> o: S;\n" % name + ep % ("o.%s = 1u;" % name)))
+        out.append(("longname_global%d" % n, "var<private> %s: u32;\n" % name + buf + ep % ("%s = 2u; o[0] = %s;" % (name, name))))
+        out.append(("longname_fn%d" % n, "fn %s() -> u32 { return 1u; }\n" % name + buf + ep % ("o[0] = %s();" % name)))
+    for n in (100, 1000, 4200, 6000):
+        out.append(("wide_struct%d" % n, "struct S { " + " ".join("m%d: f32," % i for i in range(n)) + " }\n@group(0) @binding(0) var<storage, read_write> s: S;\n"
+                    + ep % "s.m1 = s.m0 + 1.0;"))
+        out.append(("wide_struct_local%d" % n, "struct S { " + " ".join("m%d: f32," % i for i in range(n)) + " }\n" + buf + ep % "var s: S; s.m1 = 2.0; o[0] = u32(s.m1);"))
+    for n in (100, 2000, 5000, 12000):
+        body = "var a = array<u32, %d>(%s); o[0] = a[o[1] %% %du];"
+        out.append(("array_ctor_equal%d" % n, buf + ep % (body % (n, ",".join(["1u"] * n), n))))
+        if n <= 5000:
+            out.append(("array_ctor_distinct%d" % n, buf + ep % (body % (n, ",".join("%du" % i for i in range(n)), n))))
+    for n in (100, 1000, 4000):
+        out.append(("many_params%d" % n, "fn f(" + ", ".join("p%d: u32" % i for i in range(n)) + ") -> u32 { return p0 + p%d; }\n" % (n - 1) + buf
+                    + ep % ("o[0] = f(" + ", ".join(["1u"] * n) + ");")))
+        out.append(("many_locals%d" % n, buf + ep % (" ".join("var v%d = %du;" % (i, i) for i in range(n)) + " o[0] = v0 + v%d;" % (n - 1))))
+        out.append(("many_stmts%d" % n, buf + ep % (" ".join("o[%d] = %du;" % (i % 16, i) for i in range(n)))))
+        out.append(("many_fns%d" % n, "".join("fn f%d() -> u32 { return %du; }\n" % (i, i) for i in range(n)) + buf + ep % ("o[0] = f0() + f%d();" % (n - 1))))
+        out.append(("call_chain%d" % n, "fn f0() -> u32 { return 1u; }\n" + "".join("fn f%d() -> u32 { return f%d() + 1u; }\n" % (i, i - 1) for i in range(1, n)) + buf
+                    + ep % ("o[0] = f%d();" % (n - 1))))
+        out.append(("many_globals%d" % n, "".join("var<private> g%d: u32;\n" % i for i in range(n)) + buf + ep % ("g0 = 1u; o[0] = g0 + g%d;" % (n - 1))))
+        out.append(("many_bindings%d" % n, "".join("@group(%d) @binding(%d) var<uniform> u%d: vec4<f32>;\n" % (i // 16, i % 16, i) for i in range(min(n, 1500))) + buf
+                    + ep % ("o[0] = u32(u0.x + u%d.y);" % (min(n, 1500) - 1))))
+        out.append(("many_cases%d" % n, buf + ep % ("switch o[1] { " + " ".join("case %du: { o[0] = %du; }" % (i, i) for i in range(n)) + " default: { } }")))
+        out.append(("many_structs%d" % n, "".join("struct S%d { a: u32 }\n" % i for i in range(n)) + buf + ep % ("var s = S%d(3u); o[0] = s.a;" % (n - 1))))
+        if n == 100:
+            # (30 links are enough to show the exponential cost recorded as resource:deep:swizzle_chain; longer chains
+            # only make the run slower)
+            out.append(("swizzle_chain30", buf + ep % ("let v = vec4<u32>(o[1]); o[0] = v" + ".wzyx" * 30 + ".x;")))
+            out.append(("swizzle_chain12", buf + ep % ("let v = vec4<u32>(o[1]); o[0] = v" + ".wzyx" * 12 + ".x;")))
+        out.append(("member_chain%d" % min(n, 200), "struct S0 { a: u32 }\n" + "".join("struct S%d { a: S%d }\n" % (i, i - 1) for i in range(1, min(n, 200)))
+                    + buf + ep % ("var s: S%d; o[0] = s" % (min(n, 200) - 1) + ".a" * min(n, 200) + ";")))
+    return [(n, s) for n, s in out if len(s.encode("utf-8")) <= 65536]
+
+
+def recursive_inputs():
+    """call cycles (WGSL forbids them; naga has to reject or survive them): direct, mutual, longer cycles, reachable and
+    unreachable from an entry point, in statement and in value position"""
+    buf = "@group(0) @binding(0) var<storage, read_write> o: array<u32, 4>;\n"
+    out = [("rec_direct", buf + "fn fact(n: u32) -> u32 { if n <= 1u { return 1u; } return n * fact(n - 1u); }\n@compute @workgroup_size(1) fn main() { o[0] = fact(o[1]); }"),
+           ("rec_direct_void", buf + "fn f(n: u32) { if n > 0u { f(n - 1u); } o[0] = n; }\n@compute @workgroup_size(1) fn main() { f(o[1]); }"),
+           ("rec_mutual", buf + "fn even(n: u32) -> bool { if n == 0u { return true; } return odd(n - 1u); }\nfn odd(n: u32) -> bool { if n == 0u { return false; } return even(n - 1u); }\n"
+            "@compute @workgroup_size(1) fn main() { o[0] = select(0u, 1u, even(o[1])); }"),
+           ("rec_unreachable", buf + "fn f(n: u32) -> u32 { return f(n) + 1u; }\n@compute @workgroup_size(1) fn main() { o[0] = 1u; }"),
+           ("rec_entry", buf + "@compute @workgroup_size(1) fn main() { o[0] = 1u; main(); }"),
+           ("rec_global_use", buf + "var<private> p: u32;\nfn f(n: u32) -> u32 { p = n; return g(n); }\nfn g(n: u32) -> u32 { return f(n + p); }\n@compute @workgroup_size(1) fn main() { o[0] = f(1u); }")]
+    for k in (3, 10, 100):
+        fs = "".join("fn c%d(n: u32) -> u32 { return c%d(n) + 1u; }\n" % (i, (i + 1) % k) for i in range(k))
+        out.append(("rec_cycle%d" % k, buf + fs + "@compute @workgroup_size(1) fn main() { o[0] = c0(1u); }"))
+    return out
